@@ -171,13 +171,18 @@ class Parser(object):
             )
 
     def _is_type_sizer_compatible(self, typename):
-        if typename in {type_ + width for type_ in 'ui' for width in ['8', '16', '32', '64']}:
+        integers = {type_ + width for type_ in 'ui' for width in ['8', '16', '32', '64']}
+        if typename in integers:
             return True
-        elif typename in self.typedecls and isinstance(self.typedecls[typename], model.Typedef) and \
-                self.typedecls[typename].type_name != typename:
-            return self._is_type_sizer_compatible(self.typedecls[typename].type_name)
-        else:
-            return False
+        """ a typedef chain is followed through the definitions: its links may live in files included by includes """
+        decl = self.typedecls.get(typename)
+        visited = set()
+        while isinstance(decl, model.Typedef) and id(decl) not in visited:
+            visited.add(id(decl))
+            if decl.type_name in integers:
+                return True
+            decl = decl.definition if decl.definition is not None else self.typedecls.get(decl.type_name)
+        return False
 
     def p_specification(self, t):
         '''specification : definition_list'''
